@@ -2146,3 +2146,118 @@ def c14(tier, replay=None):
 
 
 REGISTRY.update({'C14': c14})
+
+
+# ---------------------------------------------------------------------------
+# C15: purge / DeleteModel / DeleteApplication drop exactly what was named (Purge.tla)
+
+def c15(tier, replay=None):
+    import json as _json
+    import random
+    from concurrent.futures import ThreadPoolExecutor
+    from .common import seed
+    from .engines import purge as P
+    from .tlc import run_tlc, require_ok, write_cfg
+    report = Report('C15', tier)
+    maxops = 3 if tier == 'quick' else 4
+    cfg = write_cfg('MC_Purge.cfg', '''
+SPECIFICATION Spec
+CONSTANTS
+  MaxOps = %d
+  EmitRecords = TRUE
+  PurgeRemovesAppSig = TRUE
+CONSTRAINT Constraint
+INVARIANT NothingLiveDropped
+PROPERTY NoPurgeKeepsEverything
+PROPERTY PurgeDropsExactlyOwned
+PROPERTY SigMatchesAfterPurge
+''' % maxops)
+    res = require_ok(run_tlc('Purge', cfg, workers=8, timeout=3000), 'Purge.tla')
+    report.add_tlc('Purge MaxOps=%d (all relation subsets)' % maxops, res.stats())
+    recs = res.records
+    expected = {}
+    for r in recs:
+        key = _json.dumps([sorted(r['feats']), r['hist']], sort_keys=True)
+        expected[key] = {'tables': sorted(r['tables']),
+                         'sig': {a: sorted(ms) for a, ms in (r['sig'] or {}).items()}
+                         if isinstance(r['sig'], dict) else {}}
+    # replay the longest histories (their prefixes are records too), stratified by feature set
+    rng = random.Random(seed() * 613 + 15)
+    full = [r for r in recs if len(r['hist']) == maxops
+            and any(op['op'] != 'evolve' for op in r['hist'])]
+    rng.shuffle(full)
+    limit = 60 if tier == 'quick' else 600
+    by_feat = {}
+    for r in full:
+        by_feat.setdefault(tuple(sorted(r['feats'])), []).append(r)
+    chosen = []
+    while len(chosen) < limit and any(by_feat.values()):
+        for k in sorted(by_feat):
+            if by_feat[k] and len(chosen) < limit:
+                chosen.append(by_feat[k].pop())
+    with ThreadPoolExecutor(16) as ex:
+        observations = list(ex.map(lambda r: P.replay(r, expected), chosen))
+    nontrivial = set()
+    for rec, obs in zip(chosen, observations):
+        report.coverage['evaluations'] += 1
+        label = ' '.join('%s(%s)' % (op['op'], op.get('app') or op.get('purge'))
+                         + (('.' + op['model']) if op.get('model') else '') for op in rec['hist'])
+        where = {'relations': sorted(rec['feats']), 'history': label}
+        if obs['errors']:
+            report.notes.append('setup failed: %r' % (obs['errors'][:1],))
+            continue
+        for st in obs['steps']:
+            report.coverage['traces_validated_against_impl'] += 1
+            exp = st['expected']
+            detail = dict(where, step=st['index'], driver=st['driver'], purge=st['purge'],
+                          outcome=st['outcome'], error=st['error'], statements=st['statements'][:8],
+                          tables=st['tables'], signature=st['sig'], expected=exp)
+            refused = bool(rec['hist'][st['index']].get('refused'))
+            if st['outcome'] != 'ok':
+                report.fail({'class': 'upgrade-failed', 'purge': st['purge'], 'driver': st['driver'],
+                             'spec_hazard': 'referenced-model-deleted-before-referrer' if refused else None,
+                             'error': (st['error'] or '').split('.')[0][:60]}, detail)
+                if not refused:
+                    break
+            elif refused:
+                report.spec_drift('Purge.tla predicts the upgrade is refused (reference order), it ran: %s' % label)
+            if exp is None:
+                report.notes.append('no expectation for a prefix of %s' % label)
+                continue
+            if any(op['op'] != 'evolve' for op in rec['hist'][:st['index']]):
+                nontrivial.add((tuple(sorted(rec['feats'])), label, st['index']))
+            extra = sorted(set(st['tables']) - set(exp['tables']))
+            missing = sorted(set(exp['tables']) - set(st['tables']))
+            if missing:
+                report.fail({'class': 'dropped-a-table-it-does-not-own', 'purge': st['purge']},
+                            dict(detail, wrongly_dropped=missing))
+            if extra:
+                report.fail({'class': 'owned-table-left-behind', 'purge': st['purge']},
+                            dict(detail, left_behind=extra))
+            if st['changed_survivors']:
+                report.fail({'class': 'surviving-table-changed', 'purge': st['purge']},
+                            dict(detail, changed=st['changed_survivors']))
+            if st['sig'] != exp['sig']:
+                report.fail({'class': 'signature-entries-differ', 'purge': st['purge'],
+                             'stale_app_kept': sorted(set(st['sig']) - set(exp['sig']))},
+                            detail)
+        report.sample({'relations': sorted(rec['feats']), 'history': label,
+                       'final_tables': obs['steps'][-1]['tables'] if obs['steps'] else None})
+    report.coverage['distinct_nontrivial'] = len(nontrivial)
+    report.coverage['exhaustive'] = len(chosen) == len(full)
+    report.coverage['rule'] = (
+        'Purge.tla: three apps with prefix-related table names (p_a, p_a_x, p_a_more, pq_e, r_c, r_f) and every '
+        'subset of four optional relations (own M2M, M2M into another app, FK and M2M from another app); TLC '
+        'explores every sequence of <= %d operations (uninstall an app, drop a model with a DeleteModel evolution, '
+        'upgrade with / without --purge) and checks NothingLiveDropped, NoPurgeKeepsEverything, '
+        'PurgeDropsExactlyOwned, SigMatchesAfterPurge. %d of %d full-length sequences were replayed on a real '
+        'project with rows in every table (incl. many-to-many tables), alternating `evolve --execute [--purge]` '
+        'and the Evolver API; after every upgrade the table set, the schema and rows of surviving tables and the '
+        'stored signature (app -> models) are compared with the specification. Non-trivial = an upgrade that '
+        'follows at least one uninstall / model drop.' % (maxops, len(chosen), len(full)))
+    report.assumptions += ['Django refuses relations into an uninstalled app, so uninstalling p carries an '
+                           'evolution of r deleting F.a / F.many in the same upgrade']
+    return report.finish()
+
+
+REGISTRY.update({'C15': c15})
